@@ -241,6 +241,7 @@ func Run(c *fw.Ctx) {
 	c.SetRule("a case is one action sequence replayed on a freshly built/decoded value followed by a snapshot comparison; sequences are distinct by construction (distinct (value, sequence) pairs); non-trivial = sequences of length ≥ 1 (at least one read-only method executed on the real object before the snapshot is compared)")
 	c.Assume("actions = niladic exported methods with ≥ 1 result found by reflection (package roview); methods without result (SetBroadcast/SetUnicast), with arguments, or whose name starts with the word Set/Add/Update/Del/Delete/With (CamelCase boundary: AddOption yes, Addresses no) are mutators or out of scope",
 		"only methods of types declared in github.com/insomniacslk/dhcp are actions (methods of net.IP, time.Duration … are the standard library's)",
+		"on packets and messages the package-level functions that read them are actions too (helpers.go): ExtractMAC, DecapsulateRelay(Index), GetTransactionID, the ztpv4/ztpv6/netboot extractors, EncapsulateRelay and the builders that take the value as their input (their result is rendered with the transaction id zeroed: some builders draw a fresh random id)",
 		"results are compared through a structural renderer that calls no method of the value: exported fields, pointers followed, map keys sorted; unexported fields (private caches) are not observations",
 		"at most 3 elements (first two and last) of any slice are visited when enumerating actions on elements; actions before the first call reach the value, its exported fields and elements of its exported slice fields; composite actions are one accessor plus one method on its result, on an element of the result or on an exported field of the result",
 		"no action depends on the clock: dhcpv6.GetTime()-based constructors are not used, DUID-LLT times are fixed")
